@@ -136,6 +136,7 @@ class Lin:
 
     def __init__(self, value):
         self.rows = []   # (item, conds, path)
+        self.root = value
         self._walk(value, (), ())
 
     def _walk(self, v, conds, path):
@@ -416,3 +417,111 @@ def _strip_loops(conds):
 def _norm_conds(conds):
     # "if use_macro or extend_macro" vs "if use_macro" are different tests
     return tuple(sorted(set(conds)))
+
+
+# ---------------------------------------------------------------------------
+# condition helpers
+
+
+def _strip_not(text):
+    t = text.strip()
+    neg = False
+    while True:
+        if t.startswith("not "):
+            neg = not neg
+            t = t[4:].strip()
+            continue
+        if t.startswith("(") and t.endswith(")"):
+            # balanced outer parentheses?
+            depth = 0
+            ok = True
+            for i, ch in enumerate(t):
+                depth += ch == "("
+                depth -= ch == ")"
+                if depth == 0 and i < len(t) - 1:
+                    ok = False
+                    break
+            if ok:
+                t = t[1:-1].strip()
+                continue
+        return neg, t
+
+
+def polarity(conds, expr_text):
+    """True / False if the conditions imply ``expr_text`` truthy / falsy,
+    None if they say nothing about it."""
+    for kind, test in conds:
+        if kind not in ("if", "else"):
+            continue
+        neg, base = _strip_not(test)
+        if base == expr_text:
+            val = (kind == "if")
+            return (not val) if neg else val
+    return None
+
+
+def cond_signature(conds):
+    """Order-free signature of the non-loop conditions, with negations
+    normalised (``else X`` == ``if not X``)."""
+    out = set()
+    for kind, test in conds:
+        if kind == "loop":
+            continue
+        neg, base = _strip_not(test)
+        val = (kind == "if")
+        if neg:
+            val = not val
+        out.add((base, val))
+    return frozenset(out)
+
+
+def where(func, lineno=None):
+    return "%s:%d" % (func.module.relpath, lineno or func.node.lineno)
+
+
+# ---------------------------------------------------------------------------
+# save / restore brackets in emitted code
+
+ENTER = "_B = get(_K, _M)"
+LEAVE = "if _B is _M: del econtext[_K]\nelse: econtext[_K] = _B"
+
+
+def brackets(lin):
+    """(enters, leaves): lists of dicts(index, frag, backup, key, marker,
+    conds, loops)"""
+    enters, leaves = [], []
+    for i, (it, conds, path) in enumerate(lin.rows):
+        if not isinstance(it, A.Frag):
+            continue
+        for node, b in frag_find(it, ENTER):
+            enters.append(dict(i=i, frag=it, backup=name_key(it, b["_B"]),
+                               key=A.show(slot_value(it, b["_K"]) or
+                                          A.Sym(src(b["_K"]))),
+                               marker=name_key(it, b["_M"]), conds=conds,
+                               bval=slot_value(it, b["_B"])))
+        for node, b in frag_find(it, LEAVE):
+            leaves.append(dict(i=i, frag=it, backup=name_key(it, b["_B"]),
+                               key=A.show(slot_value(it, b["_K"]) or
+                                          A.Sym(src(b["_K"]))),
+                               marker=name_key(it, b["_M"]), conds=conds,
+                               bval=slot_value(it, b["_B"])))
+    return enters, leaves
+
+
+def enclosing_loops(root, target):
+    """Loop nodes (outermost first) around ``target`` in the tree ``root``."""
+    found = []
+
+    def walk(v, loops, seen):
+        if found or id(v) in seen:
+            return
+        if v is target:
+            found.append(loops)
+            return
+        seen.add(id(v))
+        if isinstance(v, A.Loop):
+            loops = loops + (v,)
+        for _, k in v.kids():
+            walk(k, loops, seen)
+    walk(root, (), set())
+    return found[0] if found else ()
